@@ -338,8 +338,12 @@ CONTRACTS = [
                       'len(self.match_criteria)), result == self.lookup_value)', ['__proof__']),
             'no_match': ('implies(not forall(lambda j: sem_cmp(at(self.match_criteria, j), packet, current_parsed_value), 0, '
                          'len(self.match_criteria)), result is None)', ['__proof__']),
+            # the same in terms of the closed term clients quantify over
+            'denotes_match': ('implies(dl_match(self, packet, current_parsed_value), result == self.lookup_value)', ['__proof__']),
+            'denotes_no_match': ('implies(not dl_match(self, packet, current_parsed_value), result is None)', ['__proof__']),
             'value_exact': ('result == ref_lookup(self, packet, current_parsed_value)', ['__native__']),
         },
+        hints=['dl_match_def(self, packet, current_parsed_value)'],
         may_raise={'ComparisonError': 'True', 'ValueError': 'True', 'KeyError': 'True'},
         modifies=[],
         native={'gen': _gen_lookup, 'build': _build_lookup},
